@@ -800,6 +800,7 @@ type Case struct {
 	Shift  string    `json:"shift,omitempty"` // the named line does not move with the source (see shiftProblem)
 	Span   string    `json:"span,omitempty"`  // the named line is not a line of the construct under test (see spanProblem)
 	What   string    `json:"what,omitempty"`  // fn / chain: the catalogue entry
+	Want   string    `json:"want,omitempty"`  // notdsl (generated entries): "error" = Load must reject the file
 	Stream string    `json:"stream"`
 	ID     int       `json:"id"`
 	Src    string    `json:"src,omitempty"`
@@ -1022,7 +1023,16 @@ func main() {
 	if !enter("notdsl") {
 		catalogue = nil
 	}
+	var entries []catEntry
 	for _, body := range catalogue {
+		entries = append(entries, catEntry{body: body})
+	}
+	if catalogue != nil {
+		entries = append(entries, typeStringEntries()...)
+		entries = append(entries, indexVarEntries(*seed)...)
+	}
+	for ei, ent := range entries {
+		body := ent.body
 		src := "package gorules\n\nimport \"github.com/quasilyte/go-ruleguard/dsl\"\n\nvar _ dsl.Matcher\n\n" + body + "\n"
 		if strings.HasPrefix(body, "import ") {
 			src = "package gorules\n\nimport \"github.com/quasilyte/go-ruleguard/dsl\"\n" + body + "\n"
@@ -1033,10 +1043,12 @@ func main() {
 		if !begin("notdsl", src) {
 			continue
 		}
-		c := Case{Stream: "notdsl", ID: id, Src: src}
+		c := Case{Stream: "notdsl", ID: id, Src: src, Want: ent.want}
 		var e *ruleguard.Engine
 		e, c.Obs = loadObs(t.Fset, []byte(src))
-		c.Shift = shiftProblem(t.Fset, []byte(src), c.Obs)
+		if ei < len(catalogue) || (ei+int(*seed))%4 == 0 {
+			c.Shift = shiftProblem(t.Fset, []byte(src), c.Obs)
+		}
 		if !strings.Contains(body, "for { }") && !strings.Contains(body, "return flt(ctx)") {
 			runIt(&c, e)
 		}
